@@ -22,11 +22,19 @@ pub type Env = ElementsEnv<Arc<elements::Transaction>>;
 pub fn env_from_json(j: &J) -> Env {
     let mut lock_time = elements::LockTime::ZERO;
     let mut sequence = elements::Sequence::MAX;
-    if let Some(h) = j.get("lock").and_then(|x| x.as_u64()) {
-        lock_time = elements::LockTime::from_consensus(h as u32);
+    // numbers, or big-endian arrays of 32 bits (TLC integers are 32-bit signed)
+    let num = |v: &J| -> Option<u32> {
+        match v {
+            J::Number(n) => n.as_u64().map(|x| x as u32),
+            J::Array(bits) => Some(bits.iter().fold(0u32, |acc, b| (acc << 1) | (b.as_u64().unwrap_or(0) as u32 & 1))),
+            _ => None,
+        }
+    };
+    if let Some(h) = j.get("lock").and_then(num) {
+        lock_time = elements::LockTime::from_consensus(h);
     }
-    if let Some(s) = j.get("seq").and_then(|x| x.as_u64()) {
-        sequence = elements::Sequence::from_consensus(s as u32);
+    if let Some(s) = j.get("seq").and_then(num) {
+        sequence = elements::Sequence::from_consensus(s);
     }
     simfony::dummy_env::dummy_with(lock_time, sequence, false)
 }
@@ -51,6 +59,18 @@ pub fn args_from_json(j: &J) -> R<Arguments> {
         }
     }
     Ok(Arguments::from(map))
+}
+
+/// entries `[{"n":name,"ty":T,"v":V}, ..]` -> map of typed values
+pub fn entries_from_json(j: &J) -> R<HashMap<WitnessName, Value>> {
+    let mut map = HashMap::new();
+    if let Some(list) = j.as_array() {
+        for e in list {
+            let name = e["n"].as_str().ok_or("entry name")?;
+            map.insert(WitnessName::from_str_unchecked(name), typed_val_from_json(e)?);
+        }
+    }
+    Ok(map)
 }
 
 pub struct RunResult {
@@ -210,7 +230,11 @@ pub fn prog(case: &J) -> R<J> {
     let wtypes = case["wtypes"].as_array().cloned().unwrap_or_default();
     let points = case["points"].as_array().cloned().unwrap_or_default();
     let verdicts = case["verdicts"].as_array().cloned().unwrap_or_default();
-    let envs: Vec<J> = case.get("envs").and_then(|e| e.as_array()).cloned().unwrap_or_else(|| vec![json!({})]);
+    let envs: Vec<J> = match case.get("envs").and_then(|e| e.as_array()) {
+        Some(a) if !a.is_empty() => a.clone(),
+        _ => vec![json!({})],
+    };
+    let verdicts_env = case.get("verdicts_env").and_then(|v| v.as_array()).cloned().unwrap_or_default();
     let prune = case.get("prune").and_then(|p| p.as_bool()).unwrap_or(false);
     let dbg_modes: Vec<bool> = match case.get("dbg").and_then(|d| d.as_array()) {
         Some(a) => a.iter().filter_map(|b| b.as_bool()).collect(),
@@ -256,16 +280,27 @@ pub fn prog(case: &J) -> R<J> {
         let cmr = commit.cmr();
         let cmr_bytes: &[u8] = cmr.as_ref();
         commit_hex.push(cmr.to_string());
+        // -- debug markers (C14)
+        if let Some(sites) = case.get("sites").and_then(|s| s.as_array()) {
+            if dbg {
+                out["markers"] = json!(crate::debugsym::check(&compiled, &commit, sites, &mut issues)?);
+            } else if !crate::debugsym::markers_in(&commit).is_empty() {
+                issues.push(json!({"at":"debug","what":"marker_in_plain_build","msg":"a build without debug symbols contains a debug marker"}));
+            }
+        }
         // -- witness points x environments
-        for envj in &envs {
+        for (ei, envj) in envs.iter().enumerate() {
             let env = env_from_json(envj);
             for (pi, point) in points.iter().enumerate() {
                 let vals = point.as_array().ok_or("point")?;
                 let map = named_values(&wnames, &wtypes, vals)?;
                 let rr = run_point(&compiled, cmr_bytes, WitnessValues::from(map), &env, prune);
                 n_runs += 1;
-                let expected = verdicts.get(pi).and_then(|v| v.as_bool());
-                let base = json!({"dbg":dbg,"point":pi,"env":envj});
+                let expected = match verdicts_env.get(ei).and_then(|row| row.as_array()) {
+                    Some(row) => row.get(pi).and_then(|v| v.as_bool()),
+                    None => verdicts.get(pi).and_then(|v| v.as_bool()),
+                };
+                let base = json!({"dbg":dbg,"point":pi,"env":ei});
                 let mut push = |what: &str, msg: String| {
                     let mut b = base.clone();
                     b["at"] = json!("run");
@@ -309,6 +344,103 @@ pub fn prog(case: &J) -> R<J> {
                         push("verdict", format!("expected {} observed {}", exp, obs));
                     }
                 }
+            }
+        }
+    }
+    // -- witness maps with their own expectation (C05)
+    if let Some(maps) = case.get("maps").and_then(|m| m.as_array()) {
+        if !maps.is_empty() {
+            if let Ok(Ok(compiled)) = catch_unwind(AssertUnwindSafe(|| tmpl.instantiate(args.clone(), false))) {
+                let cmr = compiled.commit().cmr();
+                let env = env_from_json(&json!({}));
+                for (mi, m) in maps.iter().enumerate() {
+                    let entries = entries_from_json(&m["entries"])?;
+                    let expect = m["expect"].as_str().unwrap_or("ok");
+                    let rr = run_point(&compiled, cmr.as_ref(), WitnessValues::from(entries), &env, false);
+                    n_runs += 1;
+                    let mut push = |what: &str, msg: String| {
+                        issues.push(json!({"at":"map","map":mi,"what":what,"msg":msg,"entries": m["entries"]}));
+                    };
+                    match (&rr.satisfy, expect) {
+                        (Ok(()), "err") => push("satisfy_accepts_ill_typed", String::new()),
+                        (Err(e), "ok") => {
+                            // a missing used witness is reported by finalisation, not by the type check: unconstrained
+                            if !(m["verdict"].as_str() == Some("none") && !e.contains("declared")) {
+                                push("satisfy_rejects_well_typed", e.clone())
+                            }
+                        }
+                        (Err(e), _) => {
+                            if e.starts_with("panic") {
+                                push("satisfy_panic", e.clone());
+                            }
+                        }
+                        (Ok(()), _) => {
+                            if rr.exec.starts_with("panic") || rr.exec_direct.starts_with("panic") {
+                                push("exec_panic", rr.exec.clone());
+                            }
+                            let exp = match m["verdict"].as_str() {
+                                Some("ok") => Some(true),
+                                Some("fail") => Some(false),
+                                _ => None,
+                            };
+                            if let (Some(exp), Some(obs)) = (exp, verdict_of(&rr.exec)) {
+                                if exp != obs {
+                                    push("delivery", format!("expected {} observed {}", exp, obs));
+                                }
+                            }
+                            if exp.is_some() {
+                                if let Err(e) = &rr.decode {
+                                    push("decode", e.clone());
+                                }
+                            }
+                        }
+                    }
+                }
+            }
+        }
+    }
+    // -- argument maps with their own expectation (C12)
+    if let Some(maps) = case.get("argmaps").and_then(|m| m.as_array()) {
+        for (mi, m) in maps.iter().enumerate() {
+            let entries = entries_from_json(&m["entries"])?;
+            let expect = m["expect"].as_str().unwrap_or("ok");
+            let r = catch_unwind(AssertUnwindSafe(|| tmpl.instantiate(Arguments::from(entries), false)));
+            let obs = match &r {
+                Ok(Ok(_)) => "ok".to_string(),
+                Ok(Err(e)) => format!("err:{e}"),
+                Err(_) => "panic".to_string(),
+            };
+            let kind_ok = obs.starts_with("err:") && !obs.contains("Failed to compile");
+            let good = (expect == "ok" && obs == "ok") || (expect == "err" && kind_ok);
+            if !good {
+                issues.push(json!({"at":"argmap","map":mi,"what": if expect == "ok" {"instantiate_rejects_consistent"} else {"instantiate_accepts_inconsistent"},
+                                   "msg": obs, "entries": m["entries"]}));
+            }
+        }
+    }
+    // -- the program with arguments written literally (C12): same verdicts
+    if let Some(alt) = case.get("alt").and_then(|a| a.as_array()) {
+        if !alt.is_empty() {
+            let alt_src = join_tokens(&case["alt"], sep)?;
+            match catch_unwind(AssertUnwindSafe(|| CompiledProgram::new(alt_src.as_str(), Arguments::default(), false))) {
+                Ok(Ok(compiled)) => {
+                    let cmr = compiled.commit().cmr();
+                    let env = env_from_json(&json!({}));
+                    for (pi, point) in points.iter().enumerate() {
+                        let vals = point.as_array().ok_or("point")?;
+                        let map = named_values(&wnames, &wtypes, vals)?;
+                        let rr = run_point(&compiled, cmr.as_ref(), WitnessValues::from(map), &env, false);
+                        n_runs += 1;
+                        let expected = verdicts.get(pi).and_then(|v| v.as_bool());
+                        if let (Some(exp), Some(obs)) = (expected, verdict_of(&rr.exec)) {
+                            if exp != obs {
+                                issues.push(json!({"at":"alt","point":pi,"what":"verdict","msg": format!("expected {} observed {}", exp, obs), "alt_src": alt_src}));
+                            }
+                        }
+                    }
+                }
+                Ok(Err(e)) => issues.push(json!({"at":"alt","what":"rejected","msg": e, "alt_src": alt_src})),
+                Err(p) => issues.push(json!({"at":"alt","what":"panic","msg": panic_message(p), "alt_src": alt_src})),
             }
         }
     }
